@@ -7,6 +7,7 @@ import Model.Fmt.Files
 import Model.Spec.Format
 import Proofs.Lemmas.C02Store
 import Proofs.Lemmas.C02Spec
+import Proofs.Lemmas.C02Files
 
 namespace C02
 open Fmt Spec.Format
@@ -106,6 +107,52 @@ example :
                 .setFile [98] [], .setFile [98] [52]]
     let s := ops.foldl Store.apply Store.empty
     s.live = [⟨[99], [51], true⟩, ⟨[98], [52], true⟩] ∧ s.arr.length = 3 := by
+  decide
+
+/-! ## Labels of several files -/
+
+/-- **files_labels.** With `es` the entries of the path list (split at `=` when labels are
+allowed) and `labs` the labels the specification assigns:
+0. `Files.init` assigns exactly `labs` (and an empty list with stdin allowed is the single input
+   stdin, labelled `-`);
+1. a labelled entry keeps its label;
+2. an unlabelled path that occurs once keeps its name;
+3. the occurrences of an unlabelled path `p` that occurs several times are labelled
+   `p#0, p#1, …` in order (`same (es.take j) p` is the number of earlier occurrences);
+4. provided no unlabelled path is literally `q#n` for a duplicated `q` (`NoClash`; the excluded
+   shape is known finding N4), the labels of any two unlabelled entries are different. -/
+theorem files_labels (paths : List Bytes) (allowStdin allowLabels : Bool) :
+    let es := paths.map (splitEntry allowLabels)
+    let labs := labels paths allowLabels
+    (¬ (allowStdin = true ∧ paths = []) →
+        (Files.init paths allowStdin allowLabels).map (·.label) = labs) ∧
+    (Files.init [] true allowLabels).map (·.label) = [[45]] ∧
+    (∀ (j : Nat) l p, es[j]? = some (some l, p) → labs[j]? = some l) ∧
+    (∀ (j : Nat) p, es[j]? = some (none, p) → same es p = 1 → labs[j]? = some p) ∧
+    (∀ (j : Nat) p, es[j]? = some (none, p) → same es p ≠ 1 →
+        labs[j]? = some (p ++ [35] ++ decimal (same (es.take j) p))) ∧
+    (NoClash es → ∀ (i j : Nat) p q, i < j → es[i]? = some (none, p) → es[j]? = some (none, q) →
+        labs[i]? ≠ labs[j]?) := by
+  refine ⟨init_labels paths allowStdin allowLabels, by rw [init_implicit_stdin]; rfl, ?_, ?_, ?_, ?_⟩
+  · intro j l p h
+    simp only [labels]
+    rw [labelsFrom_getElem? _ [] _ j _ h]; rfl
+  · intro j p h h1
+    simp only [labels]
+    rw [labelsFrom_getElem? _ [] _ j _ h]
+    simp [labelOf, h1]
+  · intro j p h h1
+    have hb : (same (paths.map (splitEntry allowLabels)) p == 1) = false := by simpa using h1
+    simp only [labels]
+    rw [labelsFrom_getElem? _ [] _ j _ h]
+    simp [labelOf, hb]
+  · intro hnc i j p q hij hi hj
+    exact labels_distinct _ hnc i j hij p q hi hj
+
+/-- Non-vacuity of `NoClash`, and the reason for it: `a b a` satisfies it and gets the pairwise
+distinct labels `a#0 b a#1`; `a a a#0` (N4) does not, and its first and third labels coincide. -/
+example : labels [[97], [98], [97]] false = [[97, 35, 48], [98], [97, 35, 49]] := by decide
+example : labels [[97], [97], [97, 35, 48]] false = [[97, 35, 48], [97, 35, 49], [97, 35, 48]] := by
   decide
 
 end C02
